@@ -55,6 +55,10 @@ class EffectDomain(DefaultDomain):
             return "T"
         if value == ("set", ("empty",)):
             return "F"
+        if isinstance(value, tuple) and value[:1] == ("set",) and len(value) == 2:
+            els = self._set_elements(value)   # a set built by decided steps from known elements: empty or not
+            if els is not None:
+                return "T" if els else "F"
         if isinstance(value, tuple) and value[:1] in (("attr",), ("set",)):
             return "TF"
         if isinstance(value, tuple) and value[:1] == ("tuple",):
@@ -759,6 +763,13 @@ class EffectDomain(DefaultDomain):
         tree = getattr(mod, "tree", None)
         if tree is None:
             return None
+        memo = _MODULE_CONSTANTS.setdefault(id(tree), (tree, {}))[1]
+        if name not in memo:
+            memo[name] = EffectDomain._module_constant_uncached(name, tree)
+        return memo[name]
+
+    @staticmethod
+    def _module_constant_uncached(name, tree):
         found = None
         for n in ast.walk(tree):
             if isinstance(n, (ast.Assign, ast.AnnAssign, ast.AugAssign)):
@@ -1545,6 +1556,7 @@ class EffectDomain(DefaultDomain):
 
 
 _IS_GEN = {}
+_MODULE_CONSTANTS = {}
 
 
 def is_generator(func):
